@@ -77,3 +77,28 @@ func hSafeString(n int) string {
 func hSameFloat(a, b float64) bool {
 	return a == b || (a != a && b != b)
 }
+
+// hNorm returns v with the evaluator's representation of JSON null inside containers
+// ((*interface{})(nil)) replaced by nil, i.e. the value as JSON encoding sees it.
+func hNorm(v interface{}) interface{} {
+	switch x := v.(type) {
+	case *interface{}:
+		if x == nil {
+			return nil
+		}
+		return hNorm(*x)
+	case []interface{}:
+		out := make([]interface{}, len(x))
+		for i := range x {
+			out[i] = hNorm(x[i])
+		}
+		return out
+	case map[string]interface{}:
+		out := make(map[string]interface{}, len(x))
+		for k, e := range x {
+			out[k] = hNorm(e)
+		}
+		return out
+	}
+	return v
+}
